@@ -117,6 +117,16 @@ CHECKS = {
              "the outcome judged by TLC against After(before, op); export->import round trips for generated host names.",
         note="Trusted: TLC; SQLite's durability; boundaries = Cursor.execute / Connection.commit entries.",
         technique="TLA+ spec + TLC model checking; fault enumeration at every SQL statement boundary on the real store, judged by a TLC observation spec"),
+    "C16": dict(
+        engine="Redirect", design="8 C16, 5.6, Appendix F",
+        text="TLC checks Bounded, OnlyListed, Correct (result = reference walk of the graph), NoFollowSingle and the liveness "
+             "Terminates for every function from 3 URLs to answers (final / redirect to any URL / non-gemini / relative / empty / "
+             "gemini target with user-info or fragment) x max_redirects 0..3 x follow on/off x start; every such graph is realised "
+             "by scripted peers and the real GeminiClient.get is run against it (result kind, number of connections, request "
+             "lines peers received, pin row per contacted host); random graphs over 7 URLs on 3 hosts (URLs differing only in "
+             "query / port / trailing slash) with max_redirects 0..6; the pin check of every hop under rotations and across calls "
+             "is decided by the Tofu history replay run with C16's formulas.",
+        note="Trusted: TLC; scripted peers; URLs are opaque strings in the model."),
 }
 
 ORDER = ["C01", "C02", "C03", "C04", "C05", "C06", "C07", "C08", "C09", "C10", "C11", "C12", "C13", "C14", "C15",
